@@ -15,6 +15,7 @@ import "runtime"
 func init() { vpRegister("hGC", hGC) }
 
 type gcVal[V any] struct {
+	complete bool // also judge the completeness of the Range read-back (only the odd-size value type: it forks per stored key)
 	mk   func() V
 	eq   func(a, b V) bool
 	snap func(V) uint64 // content behind the value's pointers, recorded at insert time
@@ -129,16 +130,28 @@ func runGC[K any, V any](newTree func() Tree[K, V], newKey func() K, eq func(a, 
 		a, b := newKey(), newKey()
 		vpAssume(less(a, b))
 		rc := 0
+		seen := make([]bool, len(ents))
 		t.Range(a, b)(func(k K, v V) bool {
 			rc++
 			for i := range ents {
 				if ents[i].live && eq(ents[i].k, k) {
+					seen[i] = true
 					vpAssert(vv.eq(v, ents[i].v), "C18 a stored value no longer equals what was inserted (Range)")
 				}
 			}
 			return true
 		})
 		vpTrace("range.n", uint64(rc))
+		// a stored key between the bounds (or identical to one; eq is exact key identity, so -0/+0 stay apart) must come back: a leaf read through a layout that does not
+		// match this V (e.g. a length field at another offset) makes the scan skip it without any fault
+		for i := range ents {
+			if !vv.complete {
+				break
+			}
+			if ents[i].live && (less(a, ents[i].k) || eq(a, ents[i].k)) && (less(ents[i].k, b) || eq(ents[i].k, b)) {
+				vpAssert(seen[i], "C18 a stored key between the bounds is missing from Range")
+			}
+		}
 	}
 	gcCollect()
 	vpAssert(vpDisciplineEvents() == 0, "C18 an unsafe.Pointer rule was broken (see notes)")
@@ -210,7 +223,7 @@ func hGC() {
 		gcByKind(kind, gcVal[big16]{mk: func() big16 { var x big16; x[0], x[15] = vpU64(), vpU64(); return x }, eq: func(a, b big16) bool { return a == b },
 			snap: func(x big16) uint64 { return x[0] ^ x[15] }})
 	case 5:
-		gcByKind(kind, gcVal[odd5]{mk: func() odd5 { var x odd5; x[0], x[4] = vpU8(), vpU8(); return x }, eq: func(a, b odd5) bool { return a == b },
+		gcByKind(kind, gcVal[odd5]{complete: true, mk: func() odd5 { var x odd5; x[0], x[4] = vpU8(), vpU8(); return x }, eq: func(a, b odd5) bool { return a == b },
 			snap: func(x odd5) uint64 { return uint64(x[0])<<8 | uint64(x[4]) }})
 	default:
 		vpFail("unknown value type for hGC")
